@@ -141,7 +141,7 @@ func (e *Exec) execInstr(in ssa.Instruction, probe bool) {
 		for _, r := range x.Results {
 			vs = append(vs, e.val(r))
 		}
-		e.rets = append(e.rets, retRec{g: e.g, vals: vs, st: e.st, pos: x.Pos()})
+		e.rets = append(e.rets, retRec{g: e.g, vals: vs, st: e.st, pos: x.Pos(), blk: x.Block()})
 	case *ssa.Panic:
 		if e.con == nil || !e.con.MayPanic {
 			e.check("panic", False, "explicit panic reachable")
